@@ -200,8 +200,8 @@ def c19(cx):
 
 def c10(cx):
     limits = "16,17,64,4095,4096,4097,8192,65536" + (",0,-1" if cx.tier == "thorough" else "")
-    return conn_family(
-        cx, "MC_C10", "C10", 600, 30000, flow=True, tlc_passes=4,
+    rule = conn_family(
+        cx, "MC_C10", "C10", 600, 30000, flow=True, tlc_passes=4, finish_now=False,
         consts_thorough={"MaxSends": 6},
         extra_models=[("MC_C10", "MC_C10pre.cfg", None, None, "C10pre")],
         play_extra=["-limits", limits],
@@ -213,6 +213,15 @@ def c10(cx):
              "executed on the real server with L instantiated from {16,17,64,4095,4096,4097,8192,65536} (thorough: also "
              "the 16 MiB default via 0 and -1); TLC validates the reaction to every message and to the one after it. "
              "Random driver: 12 limits, lengths around them, pipelining.")
+    if not cx.violations:
+        # the same limit applies after the connection was upgraded to TLS: the size-limit sessions once more, inside
+        # a TLS session (real crypto/tls client), judged by the same machine
+        b = gen_random(cx, "C10tls", 1500 if cx.tier == "thorough" else 150, tag="tls")
+        trace, crash = play(cx, b, "tls", extra=["-proj", "C11"])
+        rejected = [] if crash else validate(cx, trace, "Trace_PgConn")
+        judge(cx, b, trace, rejected, crash, "Trace_PgConn", play_extra=["-proj", "C11"])
+        rule += " The random size-limit sessions are also run inside TLS sessions (the limit is the configured one there too)."
+    return finish(cx, "model_checking", rule, ASSUME_CONN)
 
 
 def c20(cx):
